@@ -8,7 +8,7 @@ MH = os.path.join(engine.VERIF, 'macroharness')
 MACROLIB = os.path.join(MH, 'target', 'debug', 'verif-macroharness')
 DRIVER = os.path.join(engine.LEAN, '.lake', 'build', 'bin', 'driver')
 
-TY = {'own': 'u32', 'ref': '&u32', 'refref': '&&u32', 'mut': '&mut u32', 'imp': "&mut Vec<&'static u32>", 'slice': '&[u32]', 'mutdyn': '&mut dyn core::fmt::Debug', 'mutst': "&'static mut u32",
+TY = {'own': 'u32', 'ref': '&u32', 'refref': '&&u32', 'mut': '&mut u32', 'imp': "&mut Vec<&'static u32>", 'slice': '&[u32]', 'mutdyn': '&mut dyn core::fmt::Debug', 'mutst': "&'static mut u32", 'mutgu': '&mut U',
       'gt': 'T', 'gu': 'U', 'impl': "impl Into<u32> + 'static"}   # gt: the trait's type parameter, gu: the method's, impl: an impl-Trait parameter
 RECV = {'ref': '&self', 'mut': '&mut self', 'own': 'self', 'rc': 'self: Rc<Self>', 'arc': 'self: Arc<Self>', 'pin': 'self: Pin<&mut Self>',
         'tref': 'self: &Self', 'tmut': 'self: &mut Self'}   # longhand spellings: classified like an owned receiver by the macro
@@ -16,7 +16,7 @@ RECV = {'ref': '&self', 'mut': '&mut self', 'own': 'self', 'rc': 'self: Rc<Self>
 class Method:
     def __init__(self, name, recv, params, is_async=False, rpit=False, default=False, unmock=('none',), mgen=False):
         self.name, self.recv, self.params, self.is_async, self.rpit, self.default, self.unmock = name, recv, params, is_async, rpit, default, unmock
-        self.mgen = mgen or ('gu' in params)     # the method declares `<U: 'static>`
+        self.mgen = mgen or ('gu' in params) or ('mutgu' in params)     # the method declares `<U: 'static>`
 
 class Trait:
     def __init__(self, ident, name, api, methods, tgen=False):
